@@ -1969,15 +1969,26 @@ output(std::ostream &out, int indent_level, CPPScope *scope, bool) const {
     break;
 
   case T_construct:
-    _u._typecast._to->output(out, indent_level, scope, false);
-    out << "(";
-    _u._typecast._op1->output(out, indent_level, scope, false);
-    out << ")";
-    break;
-
   case T_default_construct:
-    _u._typecast._to->output(out, indent_level, scope, false);
-    out << "()";
+    {
+      // A functional cast needs a one-word type name: "short int(0)" is not
+      // C++, "(short int)(0)" is.
+      std::ostringstream type_name;
+      _u._typecast._to->output(type_name, indent_level, scope, false);
+      bool one_word = (_u._typecast._to->get_subtype() != CPPDeclaration::ST_simple ||
+                       type_name.str().find(' ') == std::string::npos);
+      if (one_word) {
+        out << type_name.str() << "(";
+      } else {
+        out << "(" << type_name.str() << ")(";
+      }
+      if (_type == T_construct) {
+        _u._typecast._op1->output(out, indent_level, scope, false);
+      } else if (!one_word) {
+        out << "0";
+      }
+      out << ")";
+    }
     break;
 
   case T_aggregate_init:
